@@ -190,9 +190,13 @@ def c12_2(ctx):
     zn = [n for n in ast.walk(vz.node) if isinstance(n, ast.Assign) and unparse(n.targets[0]) == 'zone_name']
     ok = len(zn) == 1 and unparse(zn[0].value) == "self.config['argument'].get('memory_zone', GLOBAL_ZONE_NAME)"
     ctx.check(ok, 'accessor:AddressOperand.valid_memory_zone', vz.site(), 'the address zone is argument.memory_zone (default GLOBAL); unknown zone raises', '; '.join(unparse(z) for z in zn))
-    ae = ctx.repo.func(T + 'address.AddressOperand.enforce_argument_valid_address')
-    rr = returns(ae)
-    ctx.check(len(rr) == 1 and unparse(rr[0].value) == 'True', 'accessor:AddressOperand.enforce', ae.site(), 'address operands always validate', '; '.join(unparse(r) for r in rr))
+    ae = ctx.repo.cls(T + 'address.AddressOperand').lookup('enforce_argument_valid_address')
+    rr = returns(ae) if ae is not None else []
+    ctx.check(len(rr) == 1 and unparse(rr[0].value) == 'True', 'accessor:AddressOperand.enforce', ae.site() if ae is not None else vz.site(),
+              'address operands always validate (whatever `valid_address` says or omits)', '; '.join(unparse(r) for r in rr) + (f' (inherited from {ae.cls.name})' if ae is not None and ae.cls.name != 'AddressOperand' else ''))
+    none_rets = [r for r in returns(vz) if r.value is None or (isinstance(r.value, ast.Constant) and r.value.value is None)]
+    ctx.check(not none_rets, 'accessor:AddressOperand.valid_memory_zone:always-a-zone', vz.site(none_rets[0]) if none_rets else vz.site(),
+              'valid_memory_zone yields a zone or raises: "no zone" would switch the range check off', '; '.join(unparse(r) for r in none_rets))
     # enumeration dictionaries
     ne = ctx.repo.func(T + 'numeric_enumeration.NumericEnumerationOperand.parse_operand')
     ei = ctx.repo.func(PARTS + '.ExpressionEnumerationByteCodePart.__init__')
